@@ -39,9 +39,31 @@ def impl_pair(run, src, ref, proc, overlap, nblk_exp, nb=1):
         mbm = (pw.height * pw.width * 4 / 2 ** nblk_exp) * 1.0001 / 2 ** 20 / mem_scale if nblk_exp else np.inf
         shape = reader._auto_block_shape(mbm)
         bps = list(reader.block_pairs(overlap=overlap, max_block_mem=mbm))
+        # _auto_block_shape against the model (`autoshape`): the budget in bytes is re-derived with the code's own float steps
+        from fractions import Fraction
+        from homonim import errors as herr
+        auto = []
+        rng = run.rng(f'auto-{src.to_dict()}-{nblk_exp}')
+        sa, ra = np.prod(np.abs(reader._src_im.res)), np.prod(np.abs(reader._ref_im.res))
+        if proc_ref:
+            ms = sa / ra if ra > sa else 1.
+        else:
+            ms = 1. if ra > sa else ra / sa
+        full = pw.height * pw.width * 4 / 2 ** 20 / ms
+        for m_k in (mbm, full, full / 2, full * rng.choice([0.3, 0.26, 0.12, 0.051, 0.9]), full / 2 ** rng.randint(2, 12),
+                    4.0 / 2 ** 20 / ms, 3.9 / 2 ** 20 / ms, rng.choice([1e-5, 1e-4, 1e-3])):
+            if not np.isfinite(m_k) or m_k <= 0:
+                continue
+            budget = Fraction(float(m_k * ms)) * 2 ** 20   # `max_block_mem * mem_scale`, then `*= 2 ** 20` (exact: a power of two)
+            try:
+                sh = reader._auto_block_shape(float(m_k))
+                got = '%d %d' % (int(sh[0]), int(sh[1]))
+            except herr.BlockSizeError:
+                got = 'err'
+            auto.append((int(pw.height), int(pw.width), budget, got))
         out = dict(
             proc_ref=proc_ref, refwin=win4(reader._ref_win), srcwin=win4(reader._src_win),
-            shape=(int(shape[0]), int(shape[1])), mbm=mbm,
+            shape=(int(shape[0]), int(shape[1])), mbm=mbm, auto=auto,
             blocks=[(bp.band_i, win4(bp.src_in_block), win4(bp.ref_in_block), win4(bp.src_out_block),
                      win4(bp.ref_out_block), int(bool(bp.outer))) for bp in bps]
         )
@@ -124,6 +146,7 @@ def run(run: common.Run):
                 'and a non-integer resolution ratio or non-zero sub-pixel offset; distinct by (ratio, offsets mod '
                 'pixel, proc, overlap, block shape)')
     cases, lines, impls = [], [], []
+    auto_lines, auto_impls, auto_cases = [], [], []
     corpus = common.load_corpus('C06')
     for i in [c['i'] for c in corpus if run.only is None or c['i'] in run.only] + run.indices(n):
         case = gen_case(run, i) if i >= 0 else dict(next(c for c in corpus if c['i'] == i))
@@ -155,8 +178,14 @@ def run(run: common.Run):
             line += ' %d %d %d %d' % (pw[1], pw[1] + pw[3], pw[0], pw[0] + pw[2])
         lines.append(line)
         impls.append(impl_line(o))
+        for (H, W, budget, got) in o['auto']:
+            auto_lines.append(f'autoshape {H} {W} {budget.numerator}/{budget.denominator}')
+            auto_impls.append(got)
+            auto_cases.append(dict(i=case['i'], op='auto-block-shape', window=(H, W), budget_bytes=float(budget)))
+            run.hist['auto-block-shape: ' + ('error' if got == 'err' else 'one block' if got == f'{H} {W}' else 'halved')] += 1
         run.sample(dict(case=case, model_request=lines[-1], impl_reply=impls[-1][:300]), 3)
     cross_crs(run)
+    run.compare_lines(auto_cases, auto_lines, auto_impls)
     failed = {f['case']['i'] for f in run.failures}
     replies = common.model_batch(lines)
     if replies is None:
